@@ -151,7 +151,17 @@ func (c *fctx) stmt(s ast.Stmt) []S {
 			if _, ok := l.(*ast.Ident); ok {
 				continue
 			}
-			out = append(out, c.expr(l, "W")...)
+			ws := c.expr(l, "W")
+			out = append(out, ws...)
+			// c.conn, err = dial(): the field is overwritten before err (or ok) can be looked at, so a
+			// failed call destroys the value other goroutines are working with
+			if len(x.Lhs) > 1 && len(x.Rhs) == 1 {
+				for _, w := range ws {
+					if w.kind == "Use" && w.b == "W" {
+						out = append(out, c.unknown(x.Pos(), "field %s assigned directly from a multi-value expression, before its error/ok value is checked", w.a))
+					}
+				}
+			}
 		}
 		return out
 	case *ast.DeclStmt:
